@@ -121,6 +121,10 @@ type Op struct {
 	// N selects the list a seturl / remove is aimed at (position in status).
 	N int   `json:"n,omitempty"`
 	S int64 `json:"s,omitempty"`
+	// Alt (add, seturl): if the request is refused, it is repeated after the
+	// bytes of the file it points at have been replaced by content of this
+	// kind (index into altKinds).
+	Alt int `json:"alt,omitempty"`
 	// restart: Pat != nil replaces the pattern list; Inject adds lists.
 	Pat    *[]int    `json:"pat,omitempty"`
 	Inject []CfgList `json:"inject,omitempty"`
@@ -170,9 +174,9 @@ func Gen(t *rapid.T, tier string) any {
 		var op Op
 		switch rapid.SampledFrom(opKinds).Draw(t, "kind") {
 		case "add":
-			op = Op{K: "add", Loc: genLoc(t), W: rapid.IntRange(0, 3).Draw(t, "allow") == 0}
+			op = Op{K: "add", Loc: genLoc(t), W: rapid.IntRange(0, 3).Draw(t, "allow") == 0, Alt: rapid.IntRange(0, len(altKinds)-1).Draw(t, "alt")}
 		case "seturl":
-			op = Op{K: "seturl", Loc: genLoc(t), N: rapid.IntRange(0, 5).Draw(t, "which"), En: rapid.IntRange(0, 4).Draw(t, "enabled") != 0}
+			op = Op{K: "seturl", Loc: genLoc(t), N: rapid.IntRange(0, 5).Draw(t, "which"), En: rapid.IntRange(0, 4).Draw(t, "enabled") != 0, Alt: rapid.IntRange(0, len(altKinds)-1).Draw(t, "alt")}
 		case "remove":
 			op = Op{K: "remove", N: rapid.IntRange(0, 5).Draw(t, "which")}
 		case "refresh":
@@ -199,6 +203,41 @@ func Gen(t *rapid.T, tier string) any {
 var markerRe = regexp.MustCompile(`m(\d+)g(\d+)\.marker\.test`)
 
 func markerName(file, gen int) string { return fmt.Sprintf("m%dg%d.marker.test", file, gen) }
+
+// fileContent is the rule list file i of the tree holds during generation gen.
+func fileContent(i, gen int) []byte {
+	var b strings.Builder
+	fmt.Fprintf(&b, "! Title: file %d\n||%s^\n", i, markerName(i, gen))
+	for k := 0; k <= i; k++ {
+		fmt.Fprintf(&b, "||filler%d-%d.example^\n", i, k)
+	}
+	return []byte(b.String())
+}
+
+// altKinds are other things a file may hold; each still carries the file's
+// marker of the generation, so that quoted content is recognised.
+var altKinds = []string{"html", "binary", "empty", "other_list", "control_first", "long_line", "hosts"}
+
+func altContent(kind string, i, gen int) []byte {
+	m := markerName(i, gen)
+	switch kind {
+	case "html":
+		return []byte("<!DOCTYPE html>\n<html><head><title>" + m + "</title></head><body>||" + m + "^</body></html>\n")
+	case "binary":
+		return []byte("\x7fELF\x01\x02\x00\x00||" + m + "^\x00\x00\n\xff\xfe\x00")
+	case "empty":
+		return nil
+	case "other_list":
+		return []byte("! Title: something else\n@@||" + m + "^\n||another.example^$important\n")
+	case "control_first":
+		return []byte("||" + m + "^\n\x01\x02\x03\n")
+	case "long_line":
+		return []byte("||" + m + "^\n" + strings.Repeat("x", 70000) + "\n")
+	case "hosts":
+		return []byte("# hosts\n0.0.0.0 " + m + "\n127.0.0.1 localhost\n")
+	}
+	return []byte(m)
+}
 
 type run struct {
 	sc   *Scenario
@@ -323,12 +362,7 @@ func (r *run) writeTree() error {
 		if err := os.MkdirAll(filepath.Dir(p), 0o755); err != nil {
 			return err
 		}
-		var b strings.Builder
-		fmt.Fprintf(&b, "! Title: file %d\n||%s^\n", i, markerName(i, r.gen))
-		for k := 0; k <= i; k++ {
-			fmt.Fprintf(&b, "||filler%d-%d.example^\n", i, k)
-		}
-		if err := os.WriteFile(p, []byte(b.String()), 0o644); err != nil {
+		if err := os.WriteFile(p, fileContent(i, r.gen), 0o644); err != nil {
 			return err
 		}
 		for _, pats := range r.genPatterns {
@@ -408,8 +442,9 @@ func (r *run) apply(i int, op Op) (bodies [][]byte, err error) {
 		loc := r.render(op.Loc)
 		var code int
 		var body []byte
+		var request func() (int, []byte, error)
 		if op.K == "add" {
-			code, body, err = n.AddURL("", loc, op.W)
+			request = func() (int, []byte, error) { return n.AddURL("", loc, op.W) }
 		} else {
 			st, _, err2 := n.Status()
 			if err2 != nil {
@@ -421,9 +456,9 @@ func (r *run) apply(i int, op Op) (bodies [][]byte, err error) {
 				l := all[op.N%len(all)]
 				target, white = l.URL, l.White
 			}
-			code, body, err = n.SetURL(target, white, "", loc, op.En)
+			request = func() (int, []byte, error) { return n.SetURL(target, white, "", loc, op.En) }
 		}
-		if err != nil {
+		if code, body, err = request(); err != nil {
 			return nil, err
 		}
 		c.Eventf("  %s target#%d form=%s -> %d", op.K, op.Loc.T%len(targets), forms[op.Loc.F%len(forms)], code)
@@ -446,6 +481,29 @@ func (r *run) apply(i int, op Op) (bodies [][]byte, err error) {
 				return nil, kernel.Violationf("unsafe-location-accepted", "%s with location %q (target $R/%s spelled %s) answered %d, want 400; safe patterns %s", op.K, r.clean(loc), targets[op.Loc.T%len(targets)], forms[op.Loc.F%len(forms)], code, r.clean(fmt.Sprint(r.patterns)))
 			}
 			c.Probe("unsafe_location_rejected_400")
+			// The file the location points at must not have been opened, so
+			// what it holds cannot have influenced the answer: the same
+			// request with other bytes at the same path gets the same answer.
+			if ti := op.Loc.T % len(targets); ti < len(tree) {
+				kind := altKinds[op.Alt%len(altKinds)]
+				p := filepath.Join(r.root, tree[ti])
+				if err = os.WriteFile(p, altContent(kind, ti, r.gen), 0o644); err != nil {
+					return nil, err
+				}
+				code2, body2, err2 := request()
+				if err2 != nil {
+					return nil, err2
+				}
+				if err = os.WriteFile(p, fileContent(ti, r.gen), 0o644); err != nil {
+					return nil, err
+				}
+				bodies = append(bodies, body2)
+				c.Eventf("  again with %s content -> %d same=%v", kind, code2, code2 == code && string(body2) == string(body))
+				c.Probe("refused_request_repeated_with_other_content")
+				if code2 != code || string(body2) != string(body) {
+					return nil, kernel.Violationf("refused-answer-depends-on-file-content", "%s with location %q (target $R/%s spelled %s, outside the safe patterns %s) answered %d %q while the file held a rule list and %d %q while it held %s content: the file was opened and read", op.K, r.clean(loc), targets[ti], forms[op.Loc.F%len(forms)], r.clean(fmt.Sprint(r.patterns)), code, r.clean(strings.TrimSpace(string(body))), code2, r.clean(strings.TrimSpace(string(body2))), kind)
+				}
+			}
 		}
 	case "remove":
 		st, _, err2 := n.Status()
@@ -658,7 +716,7 @@ var Prop = &kernel.Property{
 	Level: "exploration",
 	Rule: "seeded histories (rapid) of add_url / set_url / forced refresh / clock advance past the update interval (timer-driven refresh) / remove / restart with a changed safe-pattern list and with locations written into the configuration by hand, " +
 		"over pattern lists drawn from 24 patterns (empty list, exact paths, * ? [..] [!..] globs, relative, unclean and escaped patterns) and locations = 12 targets x 26 spellings (absolute, ./, ../ through allowed, forbidden and missing directories, doubled / leading / trailing separators, relative, file: ftp: scheme-less, query, percent-encoded, http(s)); " +
-		"every file's marker rule is renewed before each operation; a case is non-trivial when >=1 location outside the patterns (or non-http, non-absolute) was presented and >=1 file matching the patterns was actually read; distinct = distinct scenario digests",
+		"every file's marker rule is renewed before each operation; refused add_url / set_url requests are repeated with other content in the file they point at; a case is non-trivial when >=1 location outside the patterns (or non-http, non-absolute) was presented and >=1 file matching the patterns was actually read; distinct = distinct scenario digests",
 	Gen: Gen,
 	New: func() any { return &Scenario{} },
 	Run: Run,
@@ -670,11 +728,11 @@ var Prop = &kernel.Property{
 	Stub: []string{"list server / http.Transport (RoundTripper that refuses every scheme but http and https exactly like http.Transport without registered protocols, and records the attempt)", "admin HTTP client (handlers called in-process)", "configuration file (the harness carries WriteDiskConfig's lists over a restart and edits locations and safe_fs_patterns into it)", "wall clock (synctest fake clock)"},
 	Assumptions: []string{
 		"filepath.Match and filepath.Clean (stdlib) are the trusted matcher and cleaner",
-		"reading is observed through content: a file counts as read when its per-operation marker shows up in a file under the data directory, an API answer, the rules in force or a rule count; a read whose content is thrown away entirely is not observable",
+		"reading is observed through content: a file counts as read when its per-operation marker shows up in a file under the data directory, an API answer, the rules in force or a rule count; a read whose content is thrown away entirely is not observable, except at add_url / set_url: a refused request for a location outside the patterns is repeated after the bytes of the file it points at have been replaced (HTML, binary, empty, another list, control characters, an over-long line, hosts syntax; same path, same type), and the two answers must be identical",
 		"the tree contains no symbolic links (the statement excludes them)",
 		"during a restart operation files matching either the old or the new pattern list may be read",
 	},
 	FaultKinds: []string{"clean_restart", "patterns_changed", "location_edited_into_config"},
 	ProbeNames: []string{"network_location", "location_matching_patterns", "local_file_accepted", "local_location_outside_patterns", "non_http_non_absolute_location", "unsafe_location_rejected_400",
-		"marker_of_allowed_file_seen", "allowed_file_rules_in_force", "configured_list_outside_patterns", "non_http_scheme_reached_transport", "network_download", "refresh_forced", "checked_with_no_patterns"},
+		"marker_of_allowed_file_seen", "allowed_file_rules_in_force", "configured_list_outside_patterns", "non_http_scheme_reached_transport", "network_download", "refresh_forced", "checked_with_no_patterns", "refused_request_repeated_with_other_content"},
 }
